@@ -732,6 +732,12 @@ func relevantFacts(facts []*Term, goal *Term) []*Term {
 	for _, n := range work {
 		direct[n] = true
 	}
+	// beyond a loop-header cut the path conditions are still followed, but only the DEFINITIONS of the
+	// named conditions are kept (condOnly), not every fact that mentions them: enough to know that a
+	// block inside the loop is unreachable under the function's preconditions, without dragging the
+	// pre-loop heap facts into every loop-body query
+	beyond := map[string]bool{}
+	condOnly := map[string]bool{}
 	for len(work) > 0 {
 		n := work[len(work)-1]
 		work = work[:len(work)-1]
@@ -747,12 +753,22 @@ func relevantFacts(facts []*Term, goal *Term) []*Term {
 		// further (the invariant carries what the loop needs), but the named condition under which the
 		// loop was entered stays relevant (e.g. the switch case the loop sits in)
 		cut := strings.Contains(n, "reach!hdr!") && !direct[n]
+		if cut {
+			beyond[n] = true
+		}
 		dc := map[string]*Term{}
 		FreeConsts(facts[i].Args[1], dc)
 		for m := range dc {
 			if local(m) {
-				rel[m] = true
-			} else if strings.Contains(m, "reach!") && !cut {
+				if beyond[n] {
+					condOnly[m] = true
+				} else {
+					rel[m] = true
+				}
+			} else if strings.Contains(m, "reach!") {
+				if cut || beyond[n] {
+					beyond[m] = true
+				}
 				work = append(work, m)
 			}
 		}
@@ -761,6 +777,38 @@ func relevantFacts(facts []*Term, goal *Term) []*Term {
 	for i := range facts {
 		if isReachDef[i] || len(syms[i]) == 0 {
 			keep[i] = true
+		}
+	}
+	// definitions of condition constants beyond a cut (transitively through definitions only)
+	defOf := map[string]int{}
+	for i, f := range facts {
+		if f.Op == "=" && f.Args[0].Op == "" && f.Args[0].Name != "" && !isReachDef[i] {
+			if _, dup := defOf[f.Args[0].Name]; !dup {
+				defOf[f.Args[0].Name] = i
+			}
+		}
+	}
+	var cw []string
+	for n := range condOnly {
+		cw = append(cw, n)
+	}
+	seenCond := map[string]bool{}
+	for len(cw) > 0 && len(seenCond) < 400 {
+		n := cw[len(cw)-1]
+		cw = cw[:len(cw)-1]
+		if seenCond[n] {
+			continue
+		}
+		seenCond[n] = true
+		if i, ok := defOf[n]; ok {
+			keep[i] = true
+			dc := map[string]*Term{}
+			FreeConsts(facts[i].Args[1], dc)
+			for m := range dc {
+				if local(m) {
+					cw = append(cw, m)
+				}
+			}
 		}
 	}
 	for changed := true; changed; {
